@@ -18,6 +18,7 @@ cleanup() { git -C /repo worktree remove --force "$wt" 2>/dev/null; }
 trap cleanup EXIT
 cd "$wt"
 demo_cmd=$(python3 -c "import json;print(json.load(open('$src/meta.json'))['demo_cmd'])")
+demo_cmd=$(echo "$demo_cmd" | sed "s#\.\./${prop}_out#/tmp/seed/${prop}_out#g; s#/tmp/seed/${prop}\b\([^_]\)#$wt\1#g")
 echo "demo_cmd: $demo_cmd"
 # demo files
 copy_demo() { if [ -d "$src/demo" ]; then (cd "$src/demo" && find . -type f) | while read f; do mkdir -p "$wt/$(dirname $f)"; cp "$src/demo/$f" "$wt/$f"; done; fi; }
